@@ -296,6 +296,13 @@ class Check:
             cov = ev["coverage"]
             cov["obligations_total"] = cov.pop("obligations")
             cov["obligations_discharged"] = cov.pop("discharged")
+        ev["source_root"] = str(YAW_SRC)
+        if Path(YAW_SRC).resolve() != Path("/repo/src").resolve():
+            # a run against a patched COPY of the source (tools/with_patch.sh) must not overwrite the evidence of /repo
+            d = VERIF / "replays" / self.prop
+            d.mkdir(parents=True, exist_ok=True)
+            (d / "evidence_patched_copy.json").write_text(json.dumps(ev, indent=1, default=str) + "\n")
+            return
         d = VERIF / "evidence"
         d.mkdir(exist_ok=True)
         (d / f"{self.prop}.json").write_text(json.dumps(ev, indent=1, default=str) + "\n")
